@@ -79,6 +79,24 @@ func (m *Mutex) Lock() {
 	}
 }
 
+// TryLock mirrors sync.Mutex.TryLock.
+func (m *Mutex) TryLock() bool {
+	s := active()
+	if s == nil {
+		return m.real.TryLock()
+	}
+	if !onRoot(s) {
+		Yield("mutex.trylock")
+	}
+	m.mu.Lock()
+	defer m.mu.Unlock()
+	if m.held {
+		return false
+	}
+	m.held = true
+	return true
+}
+
 func (m *Mutex) Unlock() {
 	s := active()
 	if s == nil {
@@ -217,6 +235,42 @@ func (m *RWMutex) Lock() {
 		probe("rwmutex-contended")
 		w.Wait("rwmutex.wait")
 	}
+}
+
+// TryLock mirrors sync.RWMutex.TryLock.
+func (m *RWMutex) TryLock() bool {
+	s := active()
+	if s == nil {
+		return m.real.TryLock()
+	}
+	if !onRoot(s) {
+		Yield("rwmutex.trylock")
+	}
+	m.mu.Lock()
+	defer m.mu.Unlock()
+	if m.writer || m.readers > 0 {
+		return false
+	}
+	m.writer = true
+	return true
+}
+
+// TryRLock mirrors sync.RWMutex.TryRLock.
+func (m *RWMutex) TryRLock() bool {
+	s := active()
+	if s == nil {
+		return m.real.TryRLock()
+	}
+	if !onRoot(s) {
+		Yield("rwmutex.tryrlock")
+	}
+	m.mu.Lock()
+	defer m.mu.Unlock()
+	if m.writer || m.wwaiting > 0 {
+		return false
+	}
+	m.readers++
+	return true
 }
 
 func (m *RWMutex) Unlock() {
